@@ -103,7 +103,10 @@ int main(int argc, char **argv) {
     add_real6531("user@\xef\xbd\x94\xef\xbd\x85\xef\xbd\x93\xef\xbd\x94", TLD_TYPE_SPECIAL); add_real6531("user@a.\xef\xbd\x8f\xef\xbd\x8e\xef\xbd\x89\xef\xbd\x8f\xef\xbd\x8e", TLD_TYPE_SPECIAL);
     add_real6531("user@\xd0\xbf\xd0\xbe\xd1\x87\xd1\x82\xd0\xb0.\xd1\x80\xd1\x84", TLD_TYPE_COUNTRY_CODE); add_real6531("user@\xd0\xbf\xd0\xbe\xd1\x87\xd1\x82\xd0\xb0\xe3\x80\x82\xd0\xa0\xd0\xa4", TLD_TYPE_COUNTRY_CODE);
     add_real("user@Host.EXAMPLE.Org", TLD_TYPE_SPECIAL);
-    add_real("user@host.zzzzq", -EEAV_TLD_INVALID); add_real("user@singlelabel", -EEAV_DOMAIN_NOT_FQDN);
+    add_real("user@host.zzzzq", -EEAV_TLD_INVALID);
+    /* labels that merely begin or end with a reserved name are ordinary unlisted labels / single labels */
+    add_real("user@mail.invalidxx", -EEAV_TLD_INVALID); add_real("user@mail.testly", -EEAV_TLD_INVALID); add_real("user@mail.onionaa", -EEAV_TLD_INVALID); add_real("user@mail.xxexample", -EEAV_TLD_INVALID);
+    add_real("user@invalidly", -EEAV_DOMAIN_NOT_FQDN); add_real("user@localhostal", -EEAV_DOMAIN_NOT_FQDN); add_real("user@mail.localhost1a", -EEAV_TLD_INVALID); add_real("user@example.comx", -EEAV_TLD_INVALID); add_real("user@singlelabel", -EEAV_DOMAIN_NOT_FQDN);
     add_real("user@[192.0.2.1]", 0); add_real("user@[IPv6:2001:db8::1]", 0);
     add_real("user@-bad.com", -EEAV_DOMAIN_MISPLACED_HYPHEN); add_real("us er@ok.com", -EEAV_LPART_SPECIAL); add_real("user@", -EEAV_DOMAIN_EMPTY); add_real("", -EEAV_EMAIL_EMPTY);
     if (mc_replay) return do_replay();
